@@ -1718,6 +1718,30 @@ def np_isclose(interp, a, b, rtol=Fraction(1, 10 ** 5), atol=Fraction(1, 10 ** 8
     return f(a, b)
 
 
+@_np('squeeze')
+def np_squeeze(interp, a, axis=None):
+    """Drop every axis of length 1 (a symbolic length is decided by a branch: the result's rank depends on it)."""
+    if not isinstance(a, SArr):
+        return a
+    if axis is not None:
+        raise Unsupported("np.squeeze with axis")
+    keep = []
+    for ax, d in enumerate(a.shape):
+        one = eq(d, 1)
+        if one is True or (one is not False and interp.branch(one)):
+            continue
+        keep.append(ax)
+    snap = a._snapshot()
+    nd = a.ndim
+
+    def fn(idx):
+        full = [0] * nd
+        for pos, ax in enumerate(keep):
+            full[ax] = idx[pos]
+        return snap(tuple(full))
+    return SArr(tuple(a.shape[ax] for ax in keep), fn, a.dtype)
+
+
 @_np('ascontiguousarray')
 def np_ascontiguousarray(interp, a, dtype=None, **k):
     """Returns its argument itself whenever that is already C-contiguous (which a view can be): modelled as *no copy*, the
